@@ -827,9 +827,9 @@ func ruleOwnerGuard(r *Run) {
 				case "move":
 					entCanon = r.P.Canon(ev.Fn, ev.Recv)
 				default:
-					if lit := r.P.compositeOf(ev.Fn, ev.Call.Args[0]); lit != nil {
+					if lit, lfn := r.P.compositeOfIn(ev.Fn, ev.Call.Args[0]); lit != nil {
 						if ex := litField(lit, "EntityId"); ex != nil {
-							entCanon = strings.TrimSuffix(r.P.Canon(ev.Fn, ex), ".ID")
+							entCanon = strings.TrimSuffix(r.P.Canon(lfn, ex), ".ID")
 						}
 					}
 				}
